@@ -191,6 +191,21 @@ def run(ctx):
         dec += [c04.Case("bomb:paramvariant", b.line, b.inlen, expect=c.expect, note=c.note) for b in c04.body_cases("bomb:paramvariant", "ParamVariant", "v", "le", 0, data, g.phase(), ["get"])]
     recv = gen_recv(g)
     send = gen_send(g)
+    # corpus first: <expected> <harness line>
+    for c in c04.load_corpus("C18"):
+        exp, line = c.line.split(" ", 1)
+        op = line.split(" ")[0]
+        k = c04.Case("corpus", line, len(line.split(" ")[-1]) // 2, note="corpus")
+        if op == "RX":
+            k.reject = exp == "reject"
+            k.total = 0
+            recv.insert(0, k)
+        elif op in ("SB", "SD", "SM"):
+            k.want_ok = exp == "ok"
+            send.insert(0, k)
+        else:
+            k.expect = exp
+            dec.insert(0, k)
     if thorough:
         send += gen_send_boundary(g, builds[0][1])
     model_lines = [c.model for c in dec + send if c.model]
@@ -200,6 +215,7 @@ def run(ctx):
         mout = ["?"] * len(model_lines)
     it = iter(mout)
     mres = {id(c): next(it) for c in dec + send if c.model}
+    found = []
     for build, exe in builds:
         res_dec = c04.run_impl(exe, [c.line for c in dec])
         res_recv = c04.run_impl(exe, [c.line for c in recv])
@@ -227,7 +243,7 @@ def run(ctx):
                     continue
                 if why:
                     ctx.disagreements_checked += 1
-                    ctx.violation(why, {"line": c.line[:4000], "full_line_len": len(c.line), "build": build, "result": res.raw, "kind": c.kind, "note": c.note})
+                    found.append((c04.severity(res), why, c04.violation_data(c, res, build)))
                     continue
                 m = mres.get(id(c))
                 if m is not None:
@@ -242,6 +258,7 @@ def run(ctx):
             peaks = [(c.note, r.num("peak")) for c, r in zip(recv, res_recv)]
             ctx.extra["recv_peak_rejected_max"] = max([p for (c, (_, p)) in zip(recv, peaks) if c.reject] or [0])
             ctx.extra["recv_peak_within_max"] = max([p for (c, (_, p)) in zip(recv, peaks) if not c.reject] or [0])
+    c04.report(ctx, found)
     ctx.extra["builds"] = [b for b, _ in builds]
     ctx.extra["harness_info"] = info
 
